@@ -736,6 +736,12 @@ class Exec:
         """case-split an opaque Result/Option-valued term; returns [(state, variant name, payload)]"""
         if x[0] == 'adt' and x[3] in ('Ok', 'Err', 'Some', 'None'):
             return [(st, x[3], x[4][0] if x[4] else None)]
+        # a by-reference method (`is_ok(&r)`) on a value that is a known variant: nothing to split
+        y = x
+        while y[0] == 'ref':
+            y = y[2]
+        if y is not x and y[0] == 'adt' and y[3] in ('Ok', 'Err', 'Some', 'None'):
+            return [(st, y[3], ('ref', False, y[4][0]) if y[4] else None)]
         d = ('discr', x)
         out = []
         idx = {'Ok': 0, 'Err': 1, 'None': 0, 'Some': 1}
